@@ -304,6 +304,8 @@ def universe(tier):
     RES = enum("result", [("ok", [(None, BOOL)]), ("err", [(None, E1)])], "result<bool, Ea>", "result")
     BOX_B = struct("Bx", [("v", BOOL)])
     GEN = enum("Ge", [("Kk", [(None, BOOL)]), ("Ll", [])], "Ge<bool>", "Ge")
+    GEN2 = enum("Gp", [("Two", [(None, BOOL), (None, BOOL)]), ("Zero", [])], "Gp<bool>", "Gp")
+    GEN3 = enum("Gq", [("Mix", [(None, BOOL), (None, E1)]), ("Solo", [(None, E1)])], "Gq<bool, Ea>", "Gq")
     decls.append("type Ea = | Aa | Bb")
     decls.append("type Eb = | Cc | Dd(bool) | Ee(bool, bool)")
     decls.append("type Ec = | Ff(p: bool, q: bool) | Gg(void) | Hh")
@@ -313,8 +315,10 @@ def universe(tier):
     decls.append("type Sc = {\n  e: Ea\n  f: bool\n}")
     decls.append("type Bx = {\n  v: bool\n}")
     decls.append("type Ge<T> = | Kk(T) | Ll")
+    decls.append("type Gp<T> = | Two(T, T) | Zero")
+    decls.append("type Gq<T, U> = | Mix(T, U) | Solo(U)")
     T += [BOOL, VOID, INT, STR, FLOAT, ("tuple", (BOOL, BOOL)), ("tuple", (BOOL, VOID)), ("tuple", (INT, BOOL)),
-          ("tuple", (BOOL, E1)), E1, E2, E3, E4, S1, S2, S3, OPT_B, RES, GEN, BOX_B, ("tuple", (STR, BOOL))]
+          ("tuple", (BOOL, E1)), E1, E2, E3, E4, S1, S2, S3, OPT_B, RES, GEN, GEN2, GEN3, BOX_B, ("tuple", (STR, BOOL))]
     if tier != "quick":
         T += [OPT_OPT, ("tuple", (BOOL, BOOL, BOOL)), ("tuple", (E1, E1)), ("tuple", (OPT_B, BOOL)), ("tuple", (FLOAT, BOOL))]
     else:
